@@ -235,6 +235,8 @@ func TestRaisedDuringBuiltin(t *testing.T) {
 	progs := []prog{
 		{"counting", map[string][]*gen.Node{"main.p": {gen.NSet("n", gen.NInt(0)), gen.NFor(nil, nil, nil, []*gen.Node{inc("n"), gen.NCall("probe", gen.NStr("it"), id("n"))})}}, true, far},
 		{"probe-only", map[string][]*gen.Node{"main.p": {gen.NFor(nil, nil, nil, []*gen.Node{gen.NCall("probe", gen.NStr("tock"))})}}, true, far},
+		{"assign-from-call-then-probe", map[string][]*gen.Node{"main.p": {gen.NSet("n", gen.NInt(0)), gen.NFor(nil, nil, nil, []*gen.Node{inc("n"), gen.NSet("y", gen.NCall("pval", id("n"))), gen.NCall("probe", gen.NStr("after-assign"), id("n")), gen.NSet("z", gen.NCall("pval", id("y"))), gen.NSet("w", id("z")), gen.NCall("probe", gen.NStr("end"), id("w"))})}}, true, far},
+		{"compound-assign-from-call", map[string][]*gen.Node{"main.p": {gen.NSet("n", gen.NInt(0)), gen.NFor(nil, nil, nil, []*gen.Node{gen.NAssign("+=", []*gen.Node{id("n")}, []*gen.Node{gen.NCall("pval", gen.NInt(1))}), gen.NCall("probe", gen.NStr("it"), id("n"))})}}, true, far},
 		{"three-clause", map[string][]*gen.Node{"main.p": {gen.NFor(gen.NSet("n", gen.NInt(0)), gen.NBin(">=", id("n"), gen.NInt(0)), inc("n"), []*gen.Node{gen.NCall("probe", gen.NStr("it"), id("n")), gen.NSet("y", id("n"))})}}, true, far},
 		{"for-in-inside", map[string][]*gen.Node{"main.p": {gen.NFor(nil, nil, nil, []*gen.Node{gen.NForIn("e", gen.NList(gen.NInt(1), gen.NInt(2), gen.NInt(3)), []*gen.Node{gen.NCall("probe", gen.NStr("e"), id("e"))})})}}, true, far},
 		{"in-callee", map[string][]*gen.Node{"main.p": {gen.NCall("probe", gen.NStr("before")), gen.NCall("use", gen.NStr("s1.p")), gen.NCall("probe", gen.NStr("after"))},
@@ -339,6 +341,76 @@ func TestOrderDependentPrograms(t *testing.T) {
 		}
 	}
 	evid.LabelN("order-dependent-runs", n)
+}
+
+// TestNilReceiverSignal: a host may pass a typed nil pointer whose ExitSignal method works on a nil receiver (the
+// repository's own signal test uses that shape): it is a signal like any other and must be polled.
+func TestNilReceiverSignal(t *testing.T) {
+	inc := func(n string) *gen.Node { return gen.NSet(n, gen.NBin("+", id(n), gen.NInt(1))) }
+	progs := map[string]map[string][]*gen.Node{
+		"counting":   {"main.p": {gen.NSet("n", gen.NInt(0)), gen.NFor(nil, nil, nil, []*gen.Node{inc("n"), gen.NCall("probe", gen.NStr("it"), id("n"))})}},
+		"empty-body": {"main.p": {gen.NFor(nil, nil, nil, nil)}},
+		"for-in":     {"main.p": {gen.NFor(nil, nil, nil, []*gen.Node{gen.NForIn("e", gen.NList(gen.NInt(1), gen.NInt(2)), []*gen.Node{gen.NCall("probe", gen.NStr("e"), id("e"))})})}},
+		"in-callee":  {"main.p": {gen.NCall("use", gen.NStr("s1.p")), gen.NCall("probe", gen.NStr("after"))}, "s1.p": {gen.NFor(nil, nil, nil, []*gen.Node{gen.NCall("probe", gen.NStr("callee"))})}},
+	}
+	n := 0
+	for name, scripts := range progs {
+		for _, v2 := range []bool{false, true} {
+			if v2 && len(scripts) > 1 {
+				continue
+			}
+			c := &sem.Case{Scripts: map[string][]*gen.Node{}, Root: "main.p", Meas: "m", V2: v2}
+			for k, sc := range scripts {
+				c.Scripts[k] = gen.FixAll(gen.CloneProg(sc))
+			}
+			c.Print(nil)
+			who := map[bool]string{false: "v1", true: "v2"}[v2]
+			slot := "nilsig-" + name + "-" + who
+			for _, k := range []int64{1, 2, 3, 7, 50} {
+				probe.NilSigFireAt, probe.NilSigPolls = k, 0
+				var sig *probe.NilSig
+				rp := replay{c.Replay("signal is a typed nil pointer with a nil-receiver ExitSignal"), int(k)}
+				done := make(chan string, 1)
+				evid.Watch(slot, "run with a nil-receiver signal", rp)
+				go func() {
+					defer func() {
+						if r := recover(); r != nil {
+							done <- fmt.Sprint("panic: ", r)
+						}
+					}()
+					if v2 {
+						s, err, crash := impl.LoadV2("main.p", c.Texts["main.p"], sem.V2Fns())
+						if err != nil || crash != nil {
+							done <- fmt.Sprint("load: ", err, crash)
+							return
+						}
+						rerr, crash := impl.RunV2(s, sig)
+						done <- fmt.Sprint(rerr == nil && crash == nil)
+						return
+					}
+					call, check := sem.V1Tables()
+					ok, errs, crash := impl.LoadV1(c.Texts, call, check)
+					if len(errs) > 0 || crash != nil {
+						done <- fmt.Sprint("load: ", errs, crash)
+						return
+					}
+					rerr, crash := impl.RunV1(ok["main.p"], impl.NewPoint("m", nil, map[string]any{}), sig)
+					done <- fmt.Sprint(rerr == nil && crash == nil)
+				}()
+				res := <-done
+				evid.Unwatch()
+				if res != "true" {
+					rk.Fail(t, slot, rp, "%s: run with a nil-receiver signal firing at poll %d: %s", who, k, res)
+				}
+				if polls := probe.NilSigPolls; polls < k {
+					rk.Fail(t, slot, rp, "%s: the run returned after %d polls although the signal fires at poll %d (non-terminating program)", who, polls, k)
+				}
+				evid.Case(fmt.Sprintf("%s/%d", slot, k), true, "nil-receiver-signal/"+who)
+				n++
+			}
+		}
+	}
+	evid.Exhaustive("non-terminating programs x interpreter x poll index with a typed-nil signal", n)
 }
 
 func TestNonTerminatingPrograms(t *testing.T) {
